@@ -320,7 +320,16 @@ class SpatialTransform(DeviceProperty, Module, metaclass=ABCMeta):
         # - (N, D, D + 1): Affine transformation, including translation.
         if data.ndim == 3:
             assert self.linear
-            data = U.affine_flow(data, grid)
+            if grid.same_domain_as(self.grid()):
+                data = U.affine_flow(data, grid)
+            else:
+                # Matrix is defined with respect to the cube of self.grid(). Map points of other grid there and back.
+                axes = Axes.from_grid(grid)
+                x = grid.coords(device=data.device).unsqueeze(0)
+                y = grid.transform_points(x, axes, to_grid=self.grid(), to_axes=self.axes(), decimals=None)
+                y = U.transform_points(data, y)
+                y = self.grid().transform_points(y, self.axes(), to_grid=grid, to_axes=axes, decimals=None)
+                data = U.move_dim(y - x, -1, 1)
         # Non-rigid deformation tensor as displacement field with shape (N, D, ..., X)
         else:
             assert not self.linear
